@@ -39,6 +39,9 @@
 #include <sys/stat.h>
 #include <sys/mman.h>
 
+/** Maximum value of an @c off_t. */
+#define OFF_T_MAX	((off_t)(((unsigned long long) ~(off_t)0) >> 1))
+
 /** Destructor for mmapped cache entries.
  * @param ce  Cache entry.
  */
@@ -95,7 +98,7 @@ fcache_new(unsigned nfds, const int *fd, unsigned n, unsigned order)
 		fc->info[i].filesz = (
 			fstat(fd[i], &st) == 0 && S_ISREG(st.st_mode)
 			? st.st_size
-			: ((unsigned long long) ~(off_t)0) >> 1);
+			: OFF_T_MAX);
 	}
 
 	return fc;
@@ -372,6 +375,11 @@ fcache_get_chunk(struct fcache *fc, struct fcache_chunk *fch,
 		fch->nent = 0;
 		return KDUMP_OK;
 	}
+
+	/* The last byte must have a representable file offset. */
+	if (len - 1 > (unsigned long long) OFF_T_MAX ||
+	    (pos > 0 && (off_t)(len - 1) > OFF_T_MAX - pos))
+		return KDUMP_ERR_NODATA;
 
 	first = pos & ~(off_t)(fc->pgsz - 1);
 	last = (pos + len - 1) & ~(off_t)(fc->pgsz - 1);
